@@ -113,7 +113,9 @@ SYNTH_EXT = {"rtf-big-picture": ".rtf", "mbox-raw-8bit-headers": ".mbox", "7z-hu
              "7z-self-referential-encoded-header": ".7z", "7z-encoded-header-chain": ".7z",
              "tar-absolute-member-names": ".tar", "zip-absolute-member-names": ".zip", "tar-latin1-member-names": ".tar", "zip-with-compressed-members": ".zip",
              "docx-equations-nested-48": ".docx",
-             "epub-hrefs-climb-1": ".epub", "epub-hrefs-climb-2": ".epub", "epub-hrefs-climb-3": ".epub", "epub-hrefs-absolute": ".epub", "epub-hrefs-dotdot-inside": ".epub"}
+             "epub-hrefs-climb-1": ".epub", "epub-hrefs-climb-2": ".epub", "epub-hrefs-climb-3": ".epub", "epub-hrefs-absolute": ".epub", "epub-hrefs-dotdot-inside": ".epub",
+             "msg-attachment-type-case": ".msg", "msg-attachment-type-case+name-without-extension": ".msg", "msg-attachment-name-without-extension": ".msg",
+             "msg-attachment-type-padded": ".msg"}
 
 
 def _synthetic(name: str) -> bytes:
@@ -159,6 +161,24 @@ def _synthetic(name: str) -> bytes:
             z.writestr("backup/site.tgz", _gz.compress(inner_tar.getvalue()))
             z.writestr("last.md", "# qb00005z last member\n")
         return buf.getvalue()
+    if name.startswith("msg-attachment-"):
+        # the repository's Outlook message with attachments, relabelled by same-length replacements inside its property streams: the
+        # attachments' MIME tags in another (legal: RFC 2045) letter case or padded, their file names without a routable extension
+        data = (core.FIXTURES / "email" / "msg_with_attachment.msg").read_bytes() if (core.FIXTURES / "email" / "msg_with_attachment.msg").exists() else             next(p for p in core.FIXTURES.rglob("msg_with_attachment.msg")).read_bytes()
+
+        def both(a, b):
+            nonlocal data
+            assert len(a) == len(b)
+            data = data.replace(a.encode("utf-16-le"), b.encode("utf-16-le")).replace(a.encode("ascii"), b.encode("ascii"))
+        if "type-case" in name:
+            both("application/pdf", "Application/PDF")
+            both("application/vnd.openxmlformats", "APPLICATION/VND.OpenXMLFormats")
+        if "type-padded" in name:
+            both("application/pdf", "application/PDF")
+        if "name-without-extension" in name:
+            both("sample.pdf", "sample_pdf")
+            both(".pptx", "_pptx")
+        return data
     if name.startswith("epub-hrefs-"):
         # a well-formed book whose manifest hrefs leave the container (../x above the root), are absolute, or walk up and down inside it
         import io as _io, re as _re, zipfile as _zf
